@@ -591,6 +591,15 @@ def fam_find(tier, rng):
             stripped = struct.pack("<i", t.version) + cs(0) + cs(len(t.outs)) + b"".join(struct.pack("<Q", v) + cs(len(s)) + s for v, s in t.outs) + struct.pack("<I", t.locktime)
         return hashlib.sha256(hashlib.sha256(stripped).digest()).digest()
 
+    # blocks made of the smallest transactions the parser accepts (51-byte legacy with no outputs, 12-byte segwit form
+    # with no inputs): present / absent / duplicated ids
+    tl = lambda i: Tx(1, [(pat.take(32), i, b"", 0xFFFFFFFF)], [], [], i, False)
+    ts = lambda i: Tx(1, [], [], [], i, True)
+    for txs in ([tl(1)], [tl(1), tl(2)], [ts(5), tl(3), ts(6)], [tl(1), tl(2), Tx(2, [(pat.take(32), 9, b"", 1)], [(5, b"")], [], 0, False)], [ts(7), ts(7)]):
+        body = header(pat) + cs(len(txs)) + b"".join(t.enc() for t in txs)
+        for t in txs:
+            ops.append(f"find {txid(t).hex()} {hx(body)}")
+        ops.append(f"find {'17' * 32} {hx(body)}")
     for ntx in (1, 2, 3, 5) if tier == "quick" else (1, 2, 3, 5, 9, 17):
         txs = [shapes[(ntx * 11 + i * 3) % len(shapes)] for i in range(ntx)]
         if ntx >= 3:
